@@ -240,6 +240,10 @@ def route(ctx: Any) -> List[Ob]:
     from .c06 import sighting_obligations
 
     obs.extend(sighting_obligations(ctx, R))
+    # every valid query reaches the query handler while anything is registered
+    from .c16 import dispatch_obligations
+
+    obs.extend(dispatch_obligations(ctx, R, 'query'))
     return obs
 
 
